@@ -212,6 +212,20 @@ fn names_strategy(_: Tier) -> BoxedStrategy<Names> {
         }),
         2 => prop::collection::vec(entry_strategy(30), 0..8),
         1 => prop::collection::vec(entry_strategy(1), 100..300),
+        // repeated entries: the same name again right after itself and/or later on
+        // (with the same or another hash); the statement does not ask for
+        // unique names, but the reported length must still be the number of
+        // entries the iterator yields
+        2 => (prop::collection::vec(entry_strategy(0), 1..8), any::<u16>(), any::<u16>(), any::<bool>(), entry_strategy(0)).prop_map(|(mut v, p, q, adjacent, other)| {
+            let i = crate::gen::pick_idx(p, v.len());
+            let mut dup = v[i].clone();
+            if q % 2 == 0 {
+                dup.hash = other.hash;
+            }
+            let at = if adjacent { i + 1 } else { crate::gen::pick_idx(q, v.len() + 1) };
+            v.insert(at, dup);
+            v
+        }),
     ];
     let times = prop_oneof![
         6 => (c02::ymd(2020, 1, 1)..c02::ymd(2080, 1, 1), 0i64..40 * 86_400).prop_map(|(t, d)| (t, t + d)),
@@ -248,13 +262,21 @@ fn run_names(c: &Names, obs: &mut Obs) -> CheckResult {
     let bad: Vec<&Vec<u8>> = c.entries.iter().map(|e| &e.name).filter(|n| !name_ok(n)).collect();
     let names_ok = bad.is_empty();
     let order_ok = c.this_update <= c.next_update;
-    let should_decode = names_ok && order_ok;
+    // repeated names are neither required nor forbidden by the statement:
+    // acceptance is not demanded for them, but what is accepted is checked
+    let repeated = {
+        let mut names: Vec<&Vec<u8>> = c.entries.iter().map(|e| &e.name).collect();
+        names.sort();
+        names.windows(2).any(|w| w[0] == w[1])
+    };
+    let should_decode = names_ok && order_ok && !repeated;
     let all_generalized = this.is_generalized() && next.is_generalized();
 
     obs.label(if names_ok { "names-valid" } else { "names-hostile" });
     obs.label(if order_ok { "this<=next" } else { "this>next" });
     obs.label_if(!all_generalized, "utctime");
     obs.label_if(c.entries.len() >= 100, "entries>=100");
+    obs.label_if(repeated && names_ok, "name:repeated");
     obs.label_if(c.entries.iter().any(|e| is_empty_base(&e.name)), "name:.ext");
     obs.label_if(c.entries.iter().any(|e| e.name.contains(&b'/')), "name:slash");
     obs.label_if(c.entries.iter().any(|e| e.name.len() > 900), "name:long");
@@ -436,6 +458,7 @@ pub fn property() -> Property {
                     ("decoded", 0.12),
                     ("utctime", 0.1),
                     ("entries>=100", 0.03),
+                    ("name:repeated", 0.04),
                     ("name:.ext", 0.02),
                     ("name:slash", 0.05),
                     ("name:long", 0.01),
